@@ -5,7 +5,7 @@ EXPLANATION = ('Deductive: HelpResolver.create_resolved_command restores the len
 LEVEL_NOTE = ('assumes: Command.parse does not modify the configuration; the class invariant of the prototype cache is a precondition of the factories, justified by encapsulation (fresh results + frame + the structural obligation), `cls` is taken to be the declaring class (no subclass shadows the cache); trace caches, double renders and end-to-end histories are bounded only')
 from . import resolver_contracts as rc
 from . import tablestyle_contracts as tsc
-TARGETS = [rc.M_HELP + ":HelpResolver.create_resolved_command"] + tsc.TARGETS
+TARGETS = [rc.M_HELP + ":HelpResolver.create_resolved_command"] + tsc.TARGETS + [tsc.sc.ANSI_FORMAT_STACK]
 
 
 def structural():
